@@ -47,7 +47,8 @@ def interp_slice_times(Z, slice_times, tr):
     Zal = Zf % nslices
     Za = Zal + w
     ret = (1 - w) * aux[Zal] + w * aux[Zal + 1]
-    ret += (Z - Za)
+    # whole repetitions outside the volume: nslices slices take one tr
+    ret += (Z - Za) * (tr / float(nslices))
     return ret
 
 
